@@ -16,6 +16,12 @@ def _core(out, tier, seed, prop, quick_mc, thorough_mc, quick_rand, thorough_ran
         for vl in (0, 2, 3):
             jobs["doc-%s-v%d" % (cat, vl)] = core.doc_jobs(cat, max(20, nr // 5), max(3, depth // 2), seed + 2 + vl,
                                                          vlevel=vl, kind="docv%d" % vl)
+    if prop == "C08":
+        # every second history also compares the answers of read-only query groups across refused calls
+        for name, js in jobs.items():
+            for i, j in enumerate(js):
+                if i % 2 == 0:
+                    j["probe"] = ["collections", "finders", "fields", "str", "neighbourhood"]
     core.run_pipeline(out, jobs, mc, prop)
     if prop in ("C02", "C05"):
         # second layer: the object-graph mechanism (placeholders, substitution, cascade one step at a
